@@ -44,6 +44,9 @@ CHECKS = {
  'C12': dict(cat='exploration', engine='E2', tech='bounded-exhaustive enumeration of model x generator x sampling grid fits; exhaustive sub-lists for best-of-list; differential oracles for branch, units, sequences',
    text='Exact data from independently written defining equations for the 10 well-posed models x generating parameter vectors x {8,20,60} x {linear, log} grids must be reproduced by the fit; for all 16 models x 4 deterministic noisy data sets the reported rmse must equal the recomputed normalised rms deviation; ModelIsotherm.guess over every 2- and 3-element sub-list of the guess models (plus lists containing a candidate that fails) must return the converged candidate of smallest error; user bounds/guesses, a bounded-then-plain fit sequence, branch isolation in both directions, from_modelisotherm (3 ways) with refit, and the fit after 6 unit conversions (predictions compared).',
    note='Fits raising CalculationError count as did-not-return; unit covariance on predictions at 1e-5.', ref='§4 C12'),
+ 'C13': dict(cat='exploration', engine='E2', tech='bounded-exhaustive enumeration of mixtures x partial-pressure lattice x all component permutations; IAST equations re-derived from the returned loadings with independent quadrature',
+   text='All 2-subsets of a 15-isotherm pool (every IAST-capable model type, 3 dense point isotherms) x 9 partial-pressure vectors x both orders, 24 ternary subsets x 27 vectors x 6 permutations, 2 quaternary subsets x 81 vectors x 24 permutations (quick thins the vectors): from each returned result mole fractions, equal spreading pressure at p_i/x_i (independent quadrature / point-isotherm definition, not the library function), ideal mixing rule, Henry and equal-capacity Langmuir closed forms, permutation invariance, user starting guess, fraction/selectivity/VLE helpers, reverse-after-forward, and IAST on the same objects before/after permanent conversions.',
+   note='Calls that raise are counted as did-not-return (per component count; >50% is a vacuity error).', ref='§4 C13'),
 }
 
 def main():
